@@ -14,6 +14,10 @@ os.environ.setdefault("PYTHONHASHSEED", "0")
 
 
 def main():
+    # nothing under test may wait for input: the standard input of the check (and of every process it starts) is empty
+    devnull = os.open(os.devnull, os.O_RDONLY)
+    os.dup2(devnull, 0)
+    os.close(devnull)
     ap = argparse.ArgumentParser()
     ap.add_argument("prop")
     ap.add_argument("--tier", default=os.environ.get("VERIF_TIER", "quick"), choices=["quick", "thorough"])
